@@ -182,6 +182,35 @@ func runPath(c *vecCase) *resT {
 			}
 			ok = (ok || samePath(got, append(append([]string{}, want...), keyText))) && strings.Contains(ce.Error(), keyText)
 		}
+		// the same call once more on the same schema instance: an error object (or its path) shared between
+		// calls shows as a path that differs the second time
+		if ok {
+			ob2 := callUntyped(b.Type, op, bad)
+			r.Runs++
+			var ce2 *schema.ConstraintError
+			if ob2.Panic == nil && ob2.Err != nil && errors.As(ob2.Err, &ce2) {
+				got2 := normalisePath(ce2.Path)
+				ok2 := samePath(got2, want)
+				if c.Fault == "extra_key" {
+					ok2 = ok2 || (len(got2) == len(want)+1 && samePath(got2[:len(want)], want))
+				}
+				if !ok2 {
+					d := det()
+					d["path"], d["first_path"], d["error"] = got2, got, ob2.Err.Error()
+					sg := sig("path")
+					sg["lost_at"], sg["kind_at_fault"], sg["arg_class"] = "second_call", leaf, c.Fault
+					r.miss(sg, d)
+					continue
+				}
+			} else if ob2.Panic != nil || ob2.Err == nil {
+				d := det()
+				sg := sig("path")
+				sg["lost_at"], sg["arg_class"] = "second_call", c.Fault
+				d["note"] = "the second identical call did not reject with a constraint error"
+				r.miss(sg, d)
+				continue
+			}
+		}
 		if !ok {
 			d := det()
 			d["path"], d["raw_path"], d["error"] = got, ce.Path, ob.Err.Error()
